@@ -1510,3 +1510,165 @@ def rule_real_arith(ctx, rule):
             if bad:
                 ctx.report(rule, key, "an operation with an inexact operand does not return the IEEE result: " + bad, where_of(f))
     return decided
+
+
+# ------------------------------------------------------------------------------------------------ n-ary predicates on mixed kinds
+
+CHAIN_VALUES = {
+    "Integer": [(-1,), (0,), (1,), (16777216,), (16777217,)],
+    "Rational": [(1, 3), (33333334, 100000000), (-1, 2), (16777217, 1)],
+    "Real": [(0.0,), (0.5,), (16777216.0,), (16777218.0,), (0.33333334,)],
+}
+
+
+def chain_table(fb, name, kinds, n_tests=4):
+    """the builtin predicate `name` on operands of the given kinds with symbolic payloads (every test on them explored both ways):
+    [path] with path = {tests, result} | {stuck}"""
+    from .absint import Sym
+    import itertools
+    regs = {r["name"]: r for r in registry.read(fb)}
+    if name not in regs or not regs[name]["target"]:
+        return None
+    f = fb.by_path(regs[name]["target"])
+    nv = dict((n, i) for i, n in fb.variants("values::Number"))
+    vi = dict((n, i) for i, n in fb.variants("values::Value"))
+    paths, seen = [], set()
+    for schedule in itertools.product((True, False), repeat=n_tests):
+        names = iter("abcdefghij")
+        osyms = []
+
+        def mk(kind):
+            syms = [next(names)] if kind != "Rational" else [next(names), next(names)]
+            osyms.append(syms)
+            e = Enum(nv[kind], [Sym(s_) for s_ in syms])
+            e.name, e.adt = kind, "values::Number"
+            v = Enum(vi["Number"], [e])
+            v.name, v.adt = "Number", "values::Value"
+            return v
+        args = [mk(k_) for k_ in kinds]
+        pc, k = [], [0]
+
+        def sched(entry):
+            i = k[0]
+            k[0] += 1
+            if i >= len(schedule):
+                raise absint.Stuck("more than %d tests on symbolic values on one path" % len(schedule))
+            pc.append(entry + (schedule[i],))
+            return schedule[i]
+
+        def icpt(mc, cn, a, tt, g):
+            end = cn.rsplit("::", 1)[-1]
+            symb = any(isinstance(x, Sym) for x in a)
+            unresolved = (tt.get("fn") or {}).get("resolved") is None
+            if cn.endswith("NumCast::from") and len(a) == 1:
+                return some(Sym("ToReal", a[0])) if isinstance(a[0], (Sym, int)) else UNKNOWN
+            if end in ("zero", "one") and ("Zero::" in cn or "One::" in cn) and not a:
+                return 0.0 if end == "zero" else 1.0
+            if end in ("partial_cmp", "cmp") and len(a) == 2 and symb and (unresolved or "cmp::impls" in cn):
+                return machine.SymOrdering(a[0], a[1])
+            if end in ("eq", "ne", "lt", "le", "gt", "ge") and len(a) == 2 and symb and (unresolved or "cmp::impls" in cn):
+                return sched((end, a[0], a[1]))
+            if end in ("div", "mul", "add", "sub") and "std::ops::" in cn and len(a) == 2 and symb and unresolved:
+                return Sym("F" + end.capitalize(), a[0], a[1])
+            return NOT
+
+        def symcmp(op, x, y):
+            cf, cb = absint.CUR_F[0], absint.CUR_B[0]
+            term = cf.blocks[cb]["term"] if cf is not None and cb is not None and cb < len(cf.blocks) else {}
+            if term.get("k") == "assert":
+                return bool(term.get("expected"))
+            return sched((op, x, y))
+        mc = Machine(fb, intercept=icpt, max_visits=len(kinds) + 4, budget=900)
+        absint.SYM_COMPARE = symcmp
+        try:
+            res = mc.run(f, [list(args)])
+        except (absint.Stuck, absint.Loop) as e:
+            sig = ("stuck", str(e))
+            if sig not in seen:
+                seen.add(sig)
+                paths.append({"stuck": str(e)})
+            continue
+        finally:
+            absint.SYM_COMPARE = None
+        if k[0] < len(schedule) and any(schedule[k[0]:]):
+            continue
+        sig = (tuple((p[0], repr(p[1]), repr(p[2]), p[3]) for p in pc), repr(res))
+        if sig in seen:
+            continue
+        seen.add(sig)
+        paths.append({"tests": list(pc), "result": res, "osyms": [list(o) for o in osyms]})
+    return f, paths
+
+
+def rule_chain_grid(ctx, rule):
+    """(op a b c) is (op a b) and (op b c), each pair compared as the two numbers it consists of — an exact operand facing an inexact
+    one converted to binary32 for THAT comparison only: on operand triples of every mix of kinds (thorough; quick: the mixes with a real in
+    first or middle position) over values around 2^24 and 1/3, the path a point selects answers what the pairwise definition gives"""
+    fb = ctx.fb()
+    from .ctx import where_of
+    from fractions import Fraction
+    import itertools
+    ops = {"<": lambda x, y: x < y, "<=": lambda x, y: x <= y, ">": lambda x, y: x > y, ">=": lambda x, y: x >= y, "=": lambda x, y: x == y}
+    all_kinds = list(itertools.product(("Integer", "Rational", "Real"), repeat=3))
+    if ctx.tier != "thorough":
+        all_kinds = [k_ for k_ in all_kinds if "Real" in k_[:2] and k_ != ("Real", "Real", "Real")][:8]
+
+    def val(kind, tup):
+        return float(tup[0]) if kind == "Real" else (Fraction(tup[0]) if kind == "Integer" else Fraction(tup[0], tup[1]))
+
+    def pair(op, ka, va, kb, vb):
+        if (ka == "Real") != (kb == "Real"):
+            va, vb = (_f32(va) if ka != "Real" else va), (_f32(vb) if kb != "Real" else vb)
+        return ops[op](va, vb)
+    decided = 0
+    for opn in ops:
+        bad, points, und, f = None, 0, 0, None
+        for kinds in all_kinds:
+            t = chain_table(fb, opn, kinds)
+            if t is None:
+                break
+            f, paths = t
+            good = [p for p in paths if "stuck" not in p]
+            if not good:
+                und += 1
+                continue
+            for combo in itertools.product(*[CHAIN_VALUES[k_] for k_ in kinds]):
+                osyms = good[0]["osyms"]
+                env = {}
+                for syms, tup in zip(osyms, combo):
+                    for s_, v_ in zip(syms, tup):
+                        env[s_] = v_
+                vals = [val(k_, tup) for k_, tup in zip(kinds, combo)]
+                want = pair(opn, kinds[0], vals[0], kinds[1], vals[1]) and pair(opn, kinds[1], vals[1], kinds[2], vals[2])
+                hit = None
+                for p in good:
+                    hs = [_test_holds(t_, env) for t_ in p["tests"]]
+                    if None in hs or any(h != t_[3] for h, t_ in zip(hs, p["tests"])):
+                        continue
+                    hit = p
+                    break
+                if hit is None:
+                    continue
+                b_ = find_enum(hit["result"], "Boolean")
+                if getattr(hit["result"], "name", None) != "Ok" or not b_ or not b_[0].fields or not isinstance(b_[0].fields[0], bool):
+                    continue
+                points += 1
+                got = b_[0].fields[0]
+                if got != want and bad is None:
+                    def lit(k_, tup):
+                        return repr(tup[0]) if k_ != "Rational" else "%d/%d" % tup
+                    bad = "(%s %s) answers %s; pairwise (each pair compared as the numbers it consists of) it is %s (tests on the way: %s)" % (
+                        opn, " ".join(lit(k_, tup) for k_, tup in zip(kinds, combo)), "#t" if got else "#f", "#t" if want else "#f",
+                        [(t_[0], repr(t_[1]), repr(t_[2]), t_[3]) for t_ in hit["tests"]])
+        if f is None:
+            ctx.undecided(rule, opn, "the predicate %s is not registered as a builtin function" % opn)
+            continue
+        if not points:
+            ctx.undecided(rule, opn + "/triples", "cannot follow %s on operands with symbolic payloads" % f.name, where_of(f))
+            continue
+        decided += 1
+        ctx.inst(rule, opn + "/triples", {"kind_triples": len(all_kinds), "not_followed": und, "points": points})
+        ctx.oblige(bad is None)
+        if bad:
+            ctx.report(rule, opn + "/triples", "an n-ary comparison is not the conjunction of its adjacent pairs: " + bad, where_of(f))
+    return decided
